@@ -136,3 +136,16 @@ func AccMap(site string, m any, name string, write bool) {
 	}
 	Acc(site, m, name, write)
 }
+
+// AccR records a read of *p when the surrounding expression evaluates it and hands the pointer back:
+// `x.f` is rewritten to `*vrt.AccR(site, &x.f, name)` where a probe before the statement would be too early.
+func AccR[T any](site string, p *T, name string) *T {
+	Acc(site, p, name, false)
+	return p
+}
+
+// AccMapR is the same for a map that is looked up / measured inside a larger expression.
+func AccMapR[M any](site string, m M, name string) M {
+	AccMap(site, m, name, false)
+	return m
+}
